@@ -10,7 +10,9 @@ package sim
 
 import (
 	"fmt"
+	"runtime/debug"
 	"sort"
+	"unsafe"
 )
 
 // Point kinds (what a task was about to do when it yielded).
@@ -106,6 +108,7 @@ type Sim struct {
 	End      EndReason
 	mainDone chan struct{}
 	nextObj  int
+	addrObj  map[unsafe.Pointer]int
 
 	// OnStep is called after every step, in the context of the yielding task,
 	// before the next task is chosen.  Returning a non-empty string aborts the
@@ -113,8 +116,8 @@ type Sim struct {
 	OnStep   func() string
 	OnCrash  func(t *Task) // release simulated kernel resources of a crashed task
 	OnPhase2 func()        // faults are switched off here
-	Abort  string
-	Misuse []string
+	Abort    string
+	Misuse   []string
 
 	Spurious   int
 	Switches   int // steps where the chosen task differs from the previous one
@@ -155,6 +158,20 @@ func New(cfg Config, ch *Choices) *Sim {
 }
 
 func (s *Sim) NewObj() int { s.nextObj++; return s.nextObj }
+
+// ObjOf maps an address to a small object id in first-use order, so that trace
+// hashes and logs do not depend on where the allocator put things.
+func (s *Sim) ObjOf(p unsafe.Pointer) int {
+	if s.addrObj == nil {
+		s.addrObj = map[unsafe.Pointer]int{}
+	}
+	id, ok := s.addrObj[p]
+	if !ok {
+		id = s.NewObj()
+		s.addrObj[p] = id
+	}
+	return id
+}
 
 func (s *Sim) Probe(name string) { s.Probes[name]++ }
 
@@ -239,6 +256,9 @@ func (s *Sim) Run() {
 }
 
 func (s *Sim) taskMain(t *Task) {
+	// a wild pointer in the code under test becomes a recoverable panic of
+	// this task instead of killing the process
+	debug.SetPanicOnFault(true)
 	<-t.wake
 	if s.dead {
 		t.state = Done
